@@ -142,6 +142,31 @@ def grid(rng: Rng, m, uniform=None):
     return rng.grid(m, lo=lo, scale=scale, uniform=uniform)
 
 
+def special_grids(rng: Rng, m):
+    """Structured grids for the *offset / step ratio* and *non-uniform × tiny scale* classes (present in every run).
+    All points are exact float64 values (returned as Fractions); the far-offset ones fill the 53-bit mantissa, so
+    that sums of abscissae round while their differences do not."""
+    jit = [Fraction(rng.choice([-3, -2, -1, 1, 2, 3]), 8) for _ in range(m)]
+    jit[0] = jit[-1] = Fraction(0)
+    steps = [Fraction(rng.choice([2, 3, 4, 5, 6]), 4) for _ in range(m - 1)]          # 0.5 … 1.5, irregular
+    cum = [sum(steps[:k], Fraction(0)) for k in range(m)]
+    return [(lab, _exact_floats(g)) for lab, g in [
+        ("unix-1kHz", [Fraction(float(1700000000 + k / 1000)) for k in range(m)]),
+        ("unix-1kHz-jittered", [Fraction(float(1700000000 + (k + float(jit[k])) / 1000)) for k in range(m)]),
+        ("julian-1s", [Fraction(float(2460000 + k / 86400)) for k in range(m)]),
+        ("dyadic-2^-22@1.7e9-irregular", [Fraction(1700000000) + 4 * c * Fraction(1, 2 ** 22) for c in cum]),   # 31 + 22 bits
+        ("tiny-2^-27-irregular", [c * Fraction(1, 2 ** 27) for c in cum]),                  # steps ≈ 4e-9 … 1.1e-8, irregular
+        ("tiny-decimal-irregular@100", [Fraction(float(100 + float(c) * 1e-8)) for c in cum]),
+        ("tiny-decimal-irregular", [Fraction(float(float(c) * 1e-8)) for c in cum]),
+    ]]
+
+
+def _exact_floats(g):
+    """Every abscissa must be exactly a float64 (the same number reaches NumPy and Lean) and the grid strictly increasing."""
+    assert all(Fraction(float(x)) == x for x in g) and all(a < b for a, b in zip(g, g[1:])), g
+    return g
+
+
 def curves(rng: Rng, n, t, kind=None, rank=None):
     """`n` curves on the grid `t` (Fractions) with dyadic values.
 
